@@ -80,6 +80,36 @@ def run_docs(shard, tier, seed):
                                  'detail': {'path': path_err[0], 'word': word}})
                     c['invalid_nodes'] += 1
                 c['nodes_validated'] += sum(1 for _ in out.iter())
+            # the same document with ONE checked, incomplete node smuggled past its parent: a child is replaced by an empty
+            # checked element of its class, then removed while the parent's checking is switched off (the setter), then
+            # checking is switched on again. Whatever the library then holds, what to_string returns must be valid
+            from . import c14
+            cands = []
+            for P in c14.nodes_of(obj):
+                if not P.xsd_check:
+                    continue
+                for k in P.get_children(False):
+                    kt = lib.xsd_type_name(type(k))
+                    if kt in ref.DFAS and not ref.DFAS[kt].accepts(()):
+                        cands.append((P, k))
+            if cands:
+                P, k = rnd.choice(cands)
+                k2 = lib.call(lambda: lib.make(type(k), check=True, with_required=True))
+                if k2[0] == 'ok' and lib.call(P.replace_child, k, k2[1])[0] == 'ok':
+                    P.xsd_check = False
+                    lib.call(P.remove, k2[1])
+                    P.xsd_check = True
+                    c['smuggled_incomplete_nodes'] += 1
+                    for ic in (False, True):
+                        r = lib.call(obj.to_string, ic)
+                        if r[0] == 'exc':
+                            continue
+                        nontriv += 1
+                        for path_err in ref.validate_doc(ET.fromstring(r[1]), checks=('children',)):
+                            viol.append({'sig': {'type': path_err[2], 'kind': 'invalid-word', 'mech': 'nested-document-after-toggled-removal'},
+                                         'case': {'text': docs.to_text(el)[:3000], 'mode': mode, 'ic': ic, 'smuggled': k.name},
+                                         'detail': {'path': path_err[0], 'word': list(path_err[3]) if len(path_err) > 3 else []}})
+                            c['invalid_nodes'] += 1
             if len(samples) < 2:
                 samples.append({'root': n, 'insertion_order': mode, 'elements': sum(1 for _ in el.iter())})
     return {'evaluations': evals, 'distinct_nontrivial': nontriv, 'violations': viol, 'samples': samples,
